@@ -40,7 +40,7 @@ def strategy(draw, tier="quick"):
         case["rename_between"] = [draw(st.integers(0, 200)), draw(st.integers(0, 3))]
     if which in ("bh", "wn"):
         case.update(exclude_water=draw(st.booleans()), sidechain_only=draw(st.integers(0, 3)) == 0,
-                    periodic=draw(st.booleans()), cell=draw(st.sampled_from([None, "ortho", "tric"])),
+                    periodic=draw(st.booleans()), cell=draw(st.sampled_from([None, "ortho", "tric", "ortho-then-tric", "tric-then-ortho"])),
                     scatter=draw(st.sampled_from(["residues", "atoms"])))
     if which == "bh":
         nf = p["nf"]
@@ -54,7 +54,11 @@ def _periodic_setup(t, case):
     if not case.get("cell"):
         return t, None, False
     nf = t.n_frames
-    cells = [{"kind": case["cell"], "L": [6.0, 7.0, 8.0], "A": [90.0, 90.0, 90.0] if case["cell"] == "ortho" else [75.0, 85.0, 100.0]}] * nf
+    def rect(f):
+        # the shape of the cell may change along the trajectory: rectangular first frame and skewed later ones, or the reverse
+        return {"ortho": True, "ortho-then-tric": f == 0, "tric-then-ortho": f == nf - 1 and nf > 1}.get(case["cell"], False)
+    cells = [{"kind": "ortho" if rect(f) else "tric", "L": [6.0 + 0.05 * f, 7.0, 8.0], "A": [90.0, 90.0, 90.0] if rect(f) else [75.0, 85.0, 100.0]}
+             for f in range(nf)]
     Hs = gen.cell_matrices(cells)
     rng = np.random.Generator(np.random.PCG64(case["p"]["rseed"] + 17))
     x = t.xyz.astype(np.float64) + 2.0
